@@ -5,6 +5,7 @@ pub mod adv;
 pub mod clock;
 pub mod exec;
 pub mod fabric;
+pub mod grouprx;
 pub mod imdev;
 pub mod kv;
 pub mod mutate;
